@@ -322,7 +322,13 @@ def c12_3(c: Ctx) -> None:
         inc_v = q.kw(call, 'include')
         if isinstance(inc_v, ast.Name) and inc_v.id not in ps and len(single_defs.get(inc_v.id, [])) == 1:
             inc_v = single_defs[inc_v.id][0]
-        if name.startswith('event_results_flat') and not isinstance(inc_v, ast.Lambda):
+        sp = shape_param_filter(filt.node)
+        shape_kw = q.kw(call, sp[1]) if sp is not None else None
+        want_cls = 'dict' if name.endswith('flat_dict') else 'list' if name.endswith('flat_list') else None
+        by_param = sp is not None and want_cls is not None and shape_kw is not None and U(shape_kw) == want_cls  # the callee conjoins the shape test itself (C12.4 checks how)
+        if sp is not None and shape_kw is not None and not by_param and not (isinstance(shape_kw, ast.Constant) and shape_kw.value is None):
+            bad.append(f'{sp[1]}={U(shape_kw)[:30]}: results are narrowed to a class this accessor does not promise')
+        if name.startswith('event_results_flat') and not isinstance(inc_v, ast.Lambda) and not by_param:
             bad.append('include: the dict/list shape test is not conjoined to the include filter (raise_if_none would be judged over results of the wrong shape)')
         if bad:
             c.fail(u, f'flag forwarding: {"; ".join(bad)}', f'{name} does not honour its flags exactly: ' + '; '.join(bad), node=call)
@@ -380,6 +386,51 @@ def c12_3(c: Ctx) -> None:
                 c.note(f'observation (not an obligation): {name} defaults {f}={d[f].value}, README tables say {want}')
 
 
+SHAPE_PARAM: dict[int, tuple[str, str]] = {}  # id(program) -> (local filter name, optional class parameter) of event_results_filtered, when it has one
+
+
+def shape_param_filter(fn: ast.AST) -> tuple[str, str] | None:
+    """event_results_filtered may take an optional class (default None) that narrows the include filter to results whose value is an instance of it:
+
+        L = include
+        if P is not None:
+            def L(r): return isinstance(r.result, P) and include(r)          (or  L = lambda r: ...)
+
+    With P None the filter is `include` itself; with a class it is the conjunction the flat_* wrappers used to build themselves.  Returns (L, P) or None."""
+    a = fn.args
+    names = [x.arg for x in a.posonlyargs + a.args]
+    defaults = dict(zip(names[len(names) - len(a.defaults):], a.defaults)) if a.defaults else {}
+    defaults.update({k.arg: d for k, d in zip(a.kwonlyargs, a.kw_defaults) if d is not None})
+    for st in fn.body:
+        if not (isinstance(st, ast.If) and isinstance(st.test, ast.Compare) and len(st.test.ops) == 1 and isinstance(st.test.ops[0], ast.IsNot) and isinstance(st.test.left, ast.Name)
+                and isinstance(st.test.comparators[0], ast.Constant) and st.test.comparators[0].value is None and not st.orelse and len(st.body) == 1):
+            continue
+        P = st.test.left.id
+        if not (P in defaults and isinstance(defaults[P], ast.Constant) and defaults[P].value is None):
+            continue
+        d = st.body[0]
+        L = arg = body = None
+        if isinstance(d, ast.FunctionDef) and len(d.args.args) == 1 and not d.args.defaults:
+            b = [x for x in d.body if not (isinstance(x, ast.Expr) and isinstance(x.value, ast.Constant))]
+            if len(b) == 1 and isinstance(b[0], ast.Return) and b[0].value is not None:
+                L, arg, body = d.name, d.args.args[0].arg, b[0].value
+        elif isinstance(d, ast.Assign) and len(d.targets) == 1 and isinstance(d.targets[0], ast.Name) and isinstance(d.value, ast.Lambda) and len(d.value.args.args) == 1:
+            L, arg, body = d.targets[0].id, d.value.args.args[0].arg, d.value.body
+        if L is None:
+            continue
+        conj = body.values if isinstance(body, ast.BoolOp) and isinstance(body.op, ast.And) else []
+        has_inc = any(U(x) == f'include({arg})' for x in conj)
+        has_shape = any(isinstance(x, ast.Call) and call_name(x) == 'isinstance' and len(x.args) == 2 and U(x.args[0]) == f'{arg}.result' and U(x.args[1]) == P for x in conj)
+        if not (len(conj) == 2 and has_inc and has_shape):
+            continue
+        # every other binding of L in the function is `L = include`
+        others = [n for n in own_nodes(fn) if isinstance(n, (ast.Assign, ast.AnnAssign)) and n is not d and n.value is not None
+                  and any(isinstance(t, ast.Name) and t.id == L for t in (n.targets if isinstance(n, ast.Assign) else [n.target]))]
+        if others and all(U(n.value) == 'include' for n in others) and not any(isinstance(n, ast.Name) and n.id == P and isinstance(n.ctx, ast.Store) for n in own_nodes(fn)):
+            return L, P
+    return None
+
+
 @ob('C12.4', 'SHAPE', 'event_results_filtered: the included results are an order-preserving comprehension over all results filtered by include only; raise_if_none raises '
     'exactly when that set is empty; the returned dict is that set')
 def c12_4(c: Ctx) -> None:
@@ -391,6 +442,21 @@ def c12_4(c: Ctx) -> None:
             tgt = n.targets[0] if isinstance(n, ast.Assign) else n.target
             if isinstance(tgt, ast.Name):
                 comps[tgt.id] = n.value
+    sp = shape_param_filter(u.node)
+    SHAPE_PARAM.pop(id(c.prog), None)
+    if sp is not None:
+        SHAPE_PARAM[id(c.prog)] = sp
+        c.ok(where(u), f'optional `{sp[1]}` (default None) narrows the filter to results whose value is an instance of it: `{sp[0]}` is include itself when it is None')
+
+        class _AsInclude(ast.NodeTransformer):  # the rest of the function is read with `L(r)` spelled `include(r)`
+            def visit_Call(self, node):  # noqa: N802
+                self.generic_visit(node)
+                if isinstance(node.func, ast.Name) and node.func.id == sp[0]:
+                    node.func = ast.copy_location(ast.Name(id='include', ctx=ast.Load()), node.func)
+                return node
+
+        for k_ in list(comps):
+            comps[k_] = _AsInclude().visit(comps[k_])
     inc = [(k, v) for k, v in comps.items() if any('include(' in U(i) for g_ in v.generators for i in g_.ifs)]
     if len(inc) != 1:
         c.fail(u, f'{len(inc)} comprehensions filtered by include()', 'the include filter is not applied exactly once')
@@ -402,7 +468,8 @@ def c12_4(c: Ctx) -> None:
     # source must be all results (self.event_results or an unfiltered copy of it)
     plain_copies = {U(n.targets[0] if isinstance(n, ast.Assign) else n.target) for n in own_nodes(fn) if isinstance(n, (ast.Assign, ast.AnnAssign)) and n.value is not None
                     and ((isinstance(n.value, ast.Call) and U(n.value.func) == 'dict' and len(n.value.args) == 1 and U(n.value.args[0]).endswith('.event_results'))
-                         or (isinstance(n.value, ast.Call) and U(n.value.func).endswith('.event_results.copy')))}
+                         or (isinstance(n.value, ast.Call) and U(n.value.func).endswith('.event_results.copy'))
+                         or (isinstance(n.value, ast.Attribute) and n.value.attr == 'event_results'))}  # (a plain alias: nothing suspends or writes between it and the comprehensions)
     full = src.endswith('.event_results') or src in plain_copies or (src in comps and not comps[src].generators[0].ifs and U(comps[src].generators[0].iter).endswith('.event_results.items()')
                                               and U(comps[src].key) == U(comps[src].generators[0].target.elts[0]) and U(comps[src].value) == U(comps[src].generators[0].target.elts[1]))
     ident = isinstance(gen.target, ast.Tuple) and U(comp.key) == U(gen.target.elts[0]) and U(comp.value) == U(gen.target.elts[1])
@@ -553,7 +620,7 @@ def c12_7(c: Ctx) -> None:
     idx = next((i for i, st in enumerate(blk) if st is arm), None)
     if idx is None or blk is not fn.body:
         raise AnalysisError('event_results_filtered: the raise_if_any arm is not a top-level statement of the function')
-    first = next((i for i, st in enumerate(blk) if isinstance(st, (ast.Assign, ast.AnnAssign)) and isinstance(st.value, (ast.DictComp, ast.Call, ast.Dict)) and f'{self_}.event_results' in U(st.value)), None)
+    first = next((i for i, st in enumerate(blk) if isinstance(st, (ast.Assign, ast.AnnAssign)) and isinstance(st.value, (ast.DictComp, ast.Call, ast.Dict, ast.Attribute)) and f'{self_}.event_results' in U(st.value)), None)
     if first is None or first > idx:
         raise AnalysisError('event_results_filtered: no binding of the recorded results before the raise_if_any arm')
     ai = AbsInt(program=c.prog, module=MOD)
